@@ -30,8 +30,8 @@ exact certificates evaluated by the harness on explored inputs):
   `x₀ + K_k(PA, P r₀)`, i.e. `r_k ⟂ K_k` and `x_k − x₀ ∈ K_k` (the harness checks exactly these two conditions in
   rational arithmetic for every CG case on an SPD pair: tag `cg_optimality_cert`), `cg_conjugacy`, termination
   within `n` passes;
-* `bicgstab_exact_precond` for LEFT preconditioning (needs `P·(A v) = v` as well; checked by the harness oracle,
-  tag `exact_prec`; the right-preconditioned case is `bicgstab_exact_precond_right` below);
+* (`bicgstab_exact_precond` for LEFT preconditioning, which needs `P·(A v) = v` as well, is proved in
+  `Properties/C05c.lean`: `bicgstab_exact_precond_left`, `bicgstab_exact_precond`;)
 * GMRES / FGMRES / LGMRES / IDR(s) / BiCGStab(L): second work package.
 -/
 namespace Amgcl.C05
@@ -122,7 +122,7 @@ theorem richardson_exact_precond (prm : Richardson.Params K) (ip : Vec K → Vec
 
 /-- **BiCGStab (right preconditioning, no `check_after`) with an exact preconditioner** makes exactly one pass
 (`α = 1`, exit after the half step because `s = 0`), reports residual `0` and returns the exact solution.
-(Left preconditioning needs `P·(A v) = v` in addition; it is checked by the harness oracle, tag `exact_prec`.) -/
+(Left preconditioning needs `P·(A v) = v` in addition: `C05c.bicgstab_exact_precond_left`.) -/
 theorem bicgstab_exact_precond_right (prm : BiCGStab.Params K) (hside : prm.pside = .right)
     (hca : prm.checkAfter = false) (ip : Vec K → Vec K → K) (sqrt : K → K) (eps : K) (A : CRS K)
     (hA : A.WF) (P : Vec K → Vec K) (hP : ∀ v, (P v).size = A.ncols)
